@@ -246,28 +246,19 @@ func c17Disruption(c *Check) {
 		for _, name := range []string{"MsgApp", "MsgHeartbeat", "MsgSnap"} {
 			t := p.ConstVal("raftpb", name)
 			okE, okL := false, false
-			for _, st := range p.StoresTo(elapsedF) {
-				if st.Fn != stepFollower || st.Whole {
-					continue
-				}
-				f := ffi.FactsAt(st.Instr)
-				if f.EnumFact(CallSym(getType, fm), t) == 1 {
-					v := ffi.Sym(st.Val)
-					if z, ok := constInt64(v.C); v.K == KConst && ok && z == 0 {
+			for _, as := range p.ArmStores(stepFollower, func(in ssa.Instruction) bool {
+				return ffi.FactsAt(in).EnumFact(CallSym(getType, fm), t) == 1
+			}) {
+				if as.Field == elapsedF {
+					if z, ok := constInt64(as.Val.C); as.Val.K == KConst && ok && z == 0 {
 						okE = true
 					}
 				}
-			}
-			for _, st := range p.StoresTo(leadF) {
-				if st.Fn != stepFollower || st.Whole {
-					continue
-				}
-				f := ffi.FactsAt(st.Instr)
-				if f.EnumFact(CallSym(getType, fm), t) == 1 && ffi.Sym(st.Val).Key() == CallSym(getFrom, fm).Key() {
+				if as.Field == leadF && as.Val.Key() == CallSym(getFrom, fm).Key() {
 					okL = true
 				}
 			}
-			c.Result(okE && okL, "C17.Q2", "follower arm "+name+" renews the lease", fnName(stepFollower), p.Pos(stepFollower.Pos()), "electionElapsed = 0 and lead = m.From", fmt.Sprintf("elapsed=%v lead=%v", okE, okL))
+			c.Result(okE && okL, "C17.Q2", "follower arm "+name+" renews the lease", fnName(stepFollower), p.Pos(stepFollower.Pos()), "electionElapsed = 0 and lead = m.From (directly or in a helper called from the arm)", fmt.Sprintf("elapsed=%v lead=%v", okE, okL))
 		}
 	}
 	for _, st := range p.StoresTo(elapsedF) {
